@@ -16,6 +16,8 @@ Signed == {[k |-> "cs", doc |-> d, key |-> sk, keyring |-> kr, mut |-> m] :
 \* `good` is its well-formed beginning
 BadTails == {[k |-> "cs", doc |-> Doc(g \o t, FALSE, TRUE), good |-> Doc(g, FALSE, TRUE), key |-> "k1", keyring |-> kr, mut |-> Mut("none")] :
                 g \in {<<1, 4, 9>>, <<1, 9, 2, 4, 9>>}, t \in {<<10, 1>>, <<4, 1>>, <<1, 10>>}, kr \in {<<"k1">>, <<"k2">>}}
+\* signed with k1's encryption-only subkey: the entity is in the keyring, the key may not make signatures
+EncKey == {[k |-> "cs", doc |-> d, key |-> "k1enc", keyring |-> kr, mut |-> Mut("none")] : d \in Docs, kr \in {<<"k1">>, <<"k1", "k2">>, <<"k2">>}}
 \* signed texts with a carriage return that is NOT followed by a line feed, inside a value and between two of them
 LoneCR == {[k |-> "cs", doc |-> d, key |-> "k1", keyring |-> <<"k1">>, mut |-> Mut("none")] :
               d \in {<<77, 58, 32, 74, CR, 70, 58, 32, 120, LF>>, <<65, 58, 32, 120, CR, CR, 80, 58, 32, 98, LF>>, <<65, 58, 32, 120, LF, SP, 99, CR, 100, LF, LF, 66, 58, 32, 121, LF>>}}
@@ -60,5 +62,5 @@ OpsFor(ds, extra, order, pollBefore) ==
     \o Nx(1, 1)
 ReaderOps == {[k |-> "cs_ops", docs |-> ds, keys |-> <<"k1", "k1", "">>, ops |-> OpsFor(ds, e, o, pb)] :
                  ds \in {<<DocA, DocB, DocC>>, <<DocC, DocA, DocB>>}, e \in 0..2, o \in {"ab", "ba", "alt"}, pb \in BOOLEAN}
-ASSUME Emit(SetToSeq(Signed \cup Unsigned) \o SetToSeq(NilRing) \o SetToSeq(EmptyForms) \o SetToSeq(Seqs) \o SetToSeq(ReaderOps) \o SetToSeq(MultiSig) \o SetToSeq(BadTails) \o SetToSeq(Faults) \o SetToSeq(LoneCR))
+ASSUME Emit(SetToSeq(Signed \cup Unsigned) \o SetToSeq(NilRing) \o SetToSeq(EmptyForms) \o SetToSeq(Seqs) \o SetToSeq(ReaderOps) \o SetToSeq(MultiSig) \o SetToSeq(BadTails) \o SetToSeq(Faults) \o SetToSeq(LoneCR) \o SetToSeq(EncKey))
 =============================================================================
